@@ -132,6 +132,8 @@ def run_pool(func, tasks, procs=None):
     rnd = random.Random(seed())
     tasks = list(tasks)
     rnd.shuffle(tasks)  # the seed only permutes the visiting order, never the explored space
+    # heavy tasks first (better load balance); the order never changes what is explored
+    tasks.sort(key=lambda t: -(t.get("weight", 0) if isinstance(t, dict) else 0))
     if procs <= 1 or len(tasks) <= 1:
         for t in tasks:
             yield func(t)
@@ -250,9 +252,12 @@ def explore_check(prop, tier, tasks, rule, assumptions, extra_cov=None, level="m
     notes = set()
     ntasks = 0
     max_depth = 0
-    finals_by_group = {}
+    slow = []
     for r in run_pool(run_task, tasks):
         ntasks += 1
+        slow.append((round(r.get("wall", 0), 1), r["id"], r["executions"]))
+        slow.sort(reverse=True)
+        del slow[6:]
         if r["error"]:
             errors.append(f"task {r['id']}: {r['error']}")
             continue
@@ -285,6 +290,7 @@ def explore_check(prop, tier, tasks, rule, assumptions, extra_cov=None, level="m
         distinct_outcomes=len(outcomes),
         max_depth=max_depth,
         caps_hit=caps[:20],
+        slowest_tasks=slow,
         notes=sorted(notes),
         explanation="every explored trace is an execution of the implementation itself "
                     "(no separate model): traces_validated_against_impl == executions",
